@@ -42,6 +42,11 @@ NormColExp(lib, c) ==
   IF c # None /\ c[1] = "idx" /\ c[2] < 16 /\ ~HasBright(lib) THEN <<"pal", c[2] % 8>> ELSE NormCol(lib, c)
 
 \* the rendition in force when the marker (88) is printed; <<found, gr>>
+\* a library without per-colour brightness may DROP the brightness of a palette colour (it cannot express it) but must not
+\* ADD it: termcolor's single `intense` flag applies to both slots
+PalIndex(c) == IF c # None /\ (c[1] = "ansi" \/ (c[1] = "idx" /\ c[2] < 16)) THEN c[2] ELSE 99
+NotBrightened(got, want) == (PalIndex(got) # 99 /\ PalIndex(want) # 99 /\ PalIndex(got) >= 8) => PalIndex(want) >= 8
+
 RECURSIVE AtMarker(_, _)
 AtMarker(evs, gr) ==
   IF evs = <<>> THEN <<FALSE, gr>>
@@ -70,8 +75,8 @@ RenderedOk(lib, st, bytes) ==
       fgBright == want.fg # None /\ want.fg[1] = "ansi" /\ want.fg[2] >= 8
   IN /\ m[1]
      /\ ~UsesForeign(VP!Run(VP!Init0, bytes)[2])
-     /\ NormCol(lib, got.fg) = NormColExp(lib, want.fg)
-     /\ NormCol(lib, got.bg) = NormColExp(lib, want.bg)
+     /\ NormCol(lib, got.fg) = NormColExp(lib, want.fg) /\ NotBrightened(got.fg, want.fg)
+     /\ NormCol(lib, got.bg) = NormColExp(lib, want.bg) /\ NotBrightened(got.bg, want.bg)
      /\ (HasUl(lib) => NormCol(lib, got.ul) = NormColExp(lib, want.ul))
      /\ IF lib = "ansi_term"
         THEN /\ (got.eff \cap (EffOf(lib) \ {"BOLD"})) = (want.eff \cap (EffOf(lib) \ {"BOLD"}))
